@@ -188,3 +188,27 @@ def run(ctx):
         "TLC, the Json reader and harness/upj.py (structure only) are trusted",
         "which failure reason is reported is not judged (DESIGN.md 7.1-6); unspecified zones are skipped and counted",
     ]
+
+
+def replay(ctx, rec):
+    from unified_planning.engines.plan_validator import SequentialPlanValidator
+    from .. import timeobs
+
+    P, pl = rec["data"]["problem"], rec["data"]["plan"]
+    problem = upj.build(P)
+    st, why, res = timeobs.validate(SequentialPlanValidator, problem, timeobs.build_seq_plan(problem, pl["steps"]))
+    r = {"steps": pl["steps"], "status": st, "metric": upj.NONE, "reason": why}
+    if res is not None and res.metric_evaluations:
+        r["metric"] = upj.NV(Fraction(list(res.metric_evaluations.values())[0]))
+    d = ctx.sub("replay")
+    path = os.path.join(d, "batch.ndjson")
+    tlc.write_ndjson(path, [{"pid": 1, "P": P, "keys": upj.keys_of(P), "plans": [r]}])
+    out = tlc.run_tlc("SeqPlanObs", CFG, d, env={"BATCH": path}, timeout=1200)
+    if out.error or out.violated:
+        raise MachineryError(out.error or out.violated)
+    fails = [p for p in out.printed if p and p[0] == "FAIL"]
+    for f in fails:
+        print("REPRODUCED property=C03 clause=%s" % f[3])
+    if not fails:
+        print("replay: no violation on the current tree (status %s)" % st)
+    return 1 if fails else 0
